@@ -13,6 +13,15 @@ pub trait Canonicalize {
     fn merge_key(&self) -> Self::MergeKey;
     fn merge(self, other: Self) -> Self;
     fn is_trivial(&self) -> bool;
+
+    /// Like `merge`, but `None` if the exponent of the merged factor overflows. The
+    /// default is for factors that do not carry an exponent.
+    fn try_merge(self, other: Self) -> Option<Self>
+    where
+        Self: Sized,
+    {
+        Some(self.merge(other))
+    }
 }
 
 #[derive(Debug, Clone)]
@@ -180,6 +189,52 @@ impl<Factor: Clone + Ord + Canonicalize, const CANONICALIZE: bool> Product<Facto
         let mut result = self.clone();
         result.canonicalize();
         result
+    }
+
+    /// Like `canonicalized`, but `None` if merging the exponents of equal factors overflows
+    pub fn try_canonicalized(&self) -> Option<Self> {
+        let mut factors = self.factors.clone();
+        factors.sort_unstable();
+
+        let mut merged: Vec<Factor> = Vec::with_capacity(factors.len());
+        for factor in factors {
+            match merged.last() {
+                Some(last) if last.merge_key() == factor.merge_key() => {
+                    let last = merged.pop().expect("non-empty");
+                    merged.push(last.try_merge(factor)?);
+                }
+                _ => merged.push(factor),
+            }
+        }
+        merged.retain(|factor| !factor.is_trivial());
+
+        Some(Self { factors: merged })
+    }
+
+    /// Multiplication that returns `None` instead of panicking on an exponent overflow
+    pub fn try_mul(mut self, mut other: Self) -> Option<Self> {
+        self.factors.append(&mut other.factors);
+        let canonical = self.try_canonicalized()?;
+        Some(if CANONICALIZE { canonical } else { self })
+    }
+}
+
+impl<Factor: Power + Clone + Canonicalize + Ord, const CANONICALIZE: bool>
+    Product<Factor, CANONICALIZE>
+{
+    /// `power` that returns `None` instead of panicking on an exponent overflow
+    pub fn try_power(self, exp: Exponent) -> Option<Self> {
+        let factors = self
+            .factors
+            .into_iter()
+            .map(|f| f.try_power(exp))
+            .collect::<Option<Vec<_>>>()?;
+        Self { factors }.try_mul(Self { factors: vec![] })
+    }
+
+    /// Division that returns `None` instead of panicking on an exponent overflow
+    pub fn try_div(self, other: Self) -> Option<Self> {
+        self.try_mul(other.try_power(Ratio::from_integer(-1))?)
     }
 }
 
